@@ -236,6 +236,8 @@ def run_gmrf(c, rec):
         return
     dim = n if pd == 1 else n * n
     mean = A(c["mean"]) if isinstance(c["mean"], list) else c["mean"]
+    if c20.decoy_other_layout(pd, n, bc, order):
+        rec.count("decoy_other_layout_built_first")
     G = must(lambda: cuqi.distribution.GMRF(mean, c["prec"], bc_type=bc, order=order, geometry=c20.make_geom(pd, n)), "constructing GMRF")
     if bc == "periodic" and pd == 2:
         refused, _ = refuses(lambda: G.sample(1, rng=np.random.RandomState(0)))
